@@ -318,6 +318,19 @@ def _check_status(run, repo, world, mod, spec):
                 st = st | {"waited"}
         return st
     W = forward_worlds(cfg, tr, cet)
+    # connect() may schedule the next attempt and store its handle in
+    # _reconnect_task: the task's own handle is dropped *before* connect()
+    # is called, never after it (the handle of the attempt just scheduled
+    # would be overwritten and disconnect() could no longer cancel it)
+    late = [n for n in cfg.reachable if n.kind == "stmt" and isinstance(
+        n.ast, ast.Assign) and any(unparse(t_) == "self._reconnect_task"
+                                   for t_ in n.ast.targets) and
+        W.worlds_with(n, lambda w: "reconnected" in w)]
+    run.ob("R-RECONNECT", Q + "#handle-dropped-before-connect", not late,
+           "self._reconnect_task is assigned after connect() was called "
+           "(line %s): a failed attempt overwrites the handle of the next "
+           "attempt it has just scheduled, which disconnect() then cannot "
+           "cancel" % (late[0].lineno if late else ""), where(mod, fn))
     bad = W.worlds_with(cfg.exit, lambda w: "reconnected" not in w and
                         "failed-reported" not in w)
     run.ob("R-STATUS", Q + "#limit-reports-failed", not bad and
